@@ -94,7 +94,7 @@ func cmdCheck(mode string, args []string) int {
 		defer os.RemoveAll(qdir)
 	}
 	SolveAll(obls, qdir, *timeout, *tier == "thorough", 8)
-	r.QDir, r.Timeout = qdir, *timeout
+	r.QDir, r.Timeout, r.Mode, r.Only = qdir, *timeout, mode, *only
 	for _, eng := range extraEngines[*prop] {
 		obls = append(obls, eng(w, r)...)
 	}
